@@ -17,6 +17,7 @@ import (
 // assigned in Enter(R) is set in every callback of a rule that R dominates in the rule-invocation
 // graph — provided the guards of the assignment are populated before the sub-rule is parsed.
 type TypeState struct {
+	loadedAt map[string]ssa.Instruction // per prefix of the path being judged: the load in the value's own chain
 	A        *Analysis
 	P        *load.Prog
 	Methods  map[string]*ssa.Function // listener methods by name
@@ -177,6 +178,24 @@ func (t *TypeState) NonNil(v ssa.Value, at ssa.Instruction) (bool, string) {
 		return t.nonNilInHelper(v, at)
 	}
 	_, isLoad := v.(*ssa.UnOp)
+	// where each prefix of the path was loaded: a prefix that is overwritten AFTER it was read (the callback keeps the
+	// object in a local and clears the field) does not change the object the local still denotes
+	t.loadedAt = map[string]ssa.Instruction{}
+	for cur := v; cur != nil; {
+		ld, ok := cur.(*ssa.UnOp)
+		if !ok || ld.Op != token.MUL {
+			break
+		}
+		fa, ok := ld.X.(*ssa.FieldAddr)
+		if !ok {
+			break
+		}
+		if ld.Parent() == at.Parent() {
+			t.loadedAt[e5path.AccessPath(ld)] = ld
+		}
+		cur = fa.X
+	}
+	defer func() { t.loadedAt = nil }()
 	return t.NonNilPath(e5path.AccessPath(v), isLoad, at)
 }
 
@@ -288,6 +307,10 @@ func (t *TypeState) killedBefore(at ssa.Instruction, path string) bool {
 	parts := strings.Split(path, ".")
 	for i := 2; i <= len(parts); i++ {
 		prefix := strings.Join(parts[:i], ".")
+		at := at
+		if ld, ok := t.loadedAt[prefix]; ok && prefix != path {
+			at = ld // the prefix was read here; later stores to it are irrelevant for the value read
+		}
 		for _, e := range effStores(f, prefix) {
 			st := e.st
 			if ok, _ := t.A.nonNil(st.Val, st, 1); ok && prefix == path {
